@@ -115,7 +115,7 @@ func randomTree(rng *rand.Rand, n int, repeat bool) nodeh.TreeSpec {
 
 var kindName = map[int]string{nodeh.TFence: "fence", nodeh.TH1: "handler-single", nodeh.THA: "handler-agg",
 	nodeh.TC1: "channel-single", nodeh.TCA: "channel-agg", nodeh.THA2: "handler-agg2", nodeh.TCA2: "channel-agg2",
-	nodeh.TNone: "unregistered"}
+	nodeh.TNone: "unregistered", nodeh.TCB1: "channel-agg-cap1", nodeh.TCB2: "channel-agg-cap2"}
 
 func senderClass(from int) string {
 	switch from {
@@ -429,6 +429,7 @@ func generate(rng *rand.Rand, tier string) []interface{} {
 		ins = append(ins, lateTable(rng, 3)...)
 		ins = append(ins, idTable(rng, false)...)
 		ins = append(ins, idTable(rng, true)...)
+		ins = append(ins, afterGenuine(rng)...)
 		return ins
 	}
 	budget := 400
@@ -447,6 +448,8 @@ func generate(rng *rand.Rand, tier string) []interface{} {
 	for i := 0; i < 4; i++ {
 		ins = append(ins, lateTable(rng, 6)...)
 	}
+	ins = append(ins, afterGenuine(rng)...)
+	ins = append(ins, afterGenuine(rng)...)
 	ins = append(ins, idTable(rng, false)...)
 	for i := 0; i < 3; i++ {
 		ins = append(ins, idTable(rng, true)...)
@@ -544,6 +547,68 @@ func idTable(rng *rand.Rand, tcp bool) []interface{} {
 	return ins
 }
 
+// afterGenuine: aggregated types at a node with >= 2 children.  A child's GENUINE message is waiting;
+// then another server sends a message whose sender token names that same child (forged); then the
+// other children answer and the batch completes.  Whatever the node delivers under the child's
+// tree node must be a payload that child's server sent.
+func afterGenuine(rng *rand.Rand) []interface{} {
+	var ins []interface{}
+	type tc struct {
+		tree nodeh.TreeSpec
+		me   int
+	}
+	for _, t := range []tc{{nd(0, leaf(1), leaf(2)), 0}, {nd(0, leaf(1), leaf(2), leaf(3)), 0}, {nd(0, nd(1, leaf(2), leaf(3))), 1}} {
+		var ns []flatNode
+		flatten(&t.tree, -1, &ns)
+		ch := children(ns, t.me)
+		for _, typ := range []int{nodeh.THA, nodeh.TCA, nodeh.TCB2} {
+			for _, victim := range ch {
+				for _, liar := range []int{-10, nodeh.Outsider, nodeh.PeerForger, nodeh.PeerNoKey} {
+					peer, decl := liar, nodeh.DeclConsistent
+					if liar == -10 { // a sibling's server
+						for _, c := range ch {
+							if c != victim {
+								peer = ns[c].srv
+							}
+						}
+					}
+					if liar == nodeh.PeerForger || liar == nodeh.PeerNoKey {
+						decl = ns[victim].srv + 1 // own (or no) key, the victim's declared ID
+					}
+					var msgs []nodeh.Msg
+					pl, f := int64(1), int64(100)
+					add := func(m nodeh.Msg) {
+						m.Payload = pl
+						pl++
+						msgs = append(msgs, m, fence(0, f))
+						f++
+					}
+					add(legit(ns, 0, victim, typ, 0, "process"))
+					route := "process"
+					if decl == nodeh.DeclConsistent && peer >= 0 && peer != ns[t.me].srv && rng.Intn(2) == 0 {
+						route = "conn"
+					}
+					add(nodeh.Msg{Inst: 0, From: victim, Peer: peer, Decl: decl, Wire: ns[victim].srv, Type: typ, Route: route})
+					for round := 0; round < 2; round++ {
+						rest := append([]int{}, ch...)
+						rng.Shuffle(len(rest), func(i, j int) { rest[i], rest[j] = rest[j], rest[i] })
+						for _, c := range rest {
+							if round == 0 && c == victim {
+								continue
+							}
+							add(legit(ns, 0, c, typ, 0, "process"))
+						}
+					}
+					ins = append(ins, input{Scenario: nodeh.Scenario{Tree: t.tree, Insts: []int{t.me}, Msgs: msgs},
+						Class:  fmt.Sprintf("table/sender-member/%s", kindName[typ]),
+						Detail: fmt.Sprintf("peer-%s/forged-after-genuine/%s", peerClass(ns, victim, peer), route)})
+				}
+			}
+		}
+	}
+	return ins
+}
+
 // lateTable: the receiving server learns the tree only through the message (it parks the
 // message, asks the envelope's peer for the tree, dispatches when the tree has arrived).
 func lateTable(rng *rand.Rand, absent int) []interface{} {
@@ -598,7 +663,23 @@ func corpus() []interface{} {
 	both := mk(0, nodeh.TC1, "table/sender-member/channel-single")
 	both.Insts, both.Msgs[0].Peer, both.Msgs[0].OtherTree = []int{1}, 0, true
 	both.Msgs[1].From = 0
+	// genuine answer of child 1 waiting, then child 2's server sends "as child 1", then child 2 answers:
+	// nothing child 1's server did not send may be delivered under child 1's node
+	three := input{Scenario: nodeh.Scenario{Tree: nd(0, leaf(1), leaf(2)), Insts: []int{0}, Msgs: []nodeh.Msg{
+		{Inst: 0, From: 1, Peer: 1, Wire: -1, Type: nodeh.THA, Payload: 1, Route: "process"}, fence(0, 100),
+		{Inst: 0, From: 1, Peer: 2, Wire: 1, Type: nodeh.THA, Payload: 2, Route: "conn"}, fence(0, 101),
+		{Inst: 0, From: 2, Peer: 2, Wire: -1, Type: nodeh.THA, Payload: 3, Route: "process"}, fence(0, 102)}},
+		Class: "table/sender-member/handler-agg", Detail: "peer-othermember/forged-after-genuine/conn"}
+	threeCh := three
+	threeCh.Msgs = append([]nodeh.Msg{}, three.Msgs...)
+	for i := range threeCh.Msgs {
+		if threeCh.Msgs[i].Type == nodeh.THA {
+			threeCh.Msgs[i].Type = nodeh.TCA
+		}
+	}
+	threeCh.Class = "table/sender-member/channel-agg"
 	return []interface{}{
+		three, threeCh,
 		foreign, both,
 		// a member claiming to be the root over a real TCP connection is refused
 		tcp,
@@ -656,6 +737,7 @@ func main() {
 			"claimed sender (each node, absent, random id, node of another tree, non-member) x envelope peer (each member, non-member, outsider, none, key-less), " +
 			"a seeded part of the same table for 5-6 node trees, seeded multi-message scenarios, the sender x peer table of a 3-node tree on servers with real TCP sockets, " +
 			"the table of forged declared-ID fields (envelope identity = own key + the victim's / the receiver's / a zero / a random ID; in-process and in the TCP handshake of an attacker's router), " +
+			"the three-step sequence genuine answer waiting / forged message naming the same child / completion, for aggregated handlers and channels; " +
 			"and the same table with a receiver that learns the tree only through the message (parked, tree requested from the envelope's peer, dispatched on arrival); " +
 			"routes: Overlay.Process, Overlay.TransmitMsg, a router connection of the (byzantine) peer's server (in-memory transport or TCP); " +
 			"sender-less messages (they kill the pinned code's process) are a seeded sample; distinct = distinct Coq case term",
